@@ -453,6 +453,35 @@ def _arrays(model, res, c, g, acts, opaque, E):
                 res.violation('R6', 'arith:arrays:%s' % label.replace(' ', '-'), where,
                               '%s with %s must be the element-wise list %s; got %s' % (label, op, want, '; '.join(H.describe(outs)[:2])),
                               case={'op': op, 'case': label}, func=f.name)
+        # a text scalar is a scalar too (not a sequence of its characters): broadcast, then converted like any text operand
+        for label, mkl, mkr, pos in (('array op text scalar', lambda: arr('a'), lambda: Sym('str', 'T'), 2),
+                                     ('text scalar op array', lambda: Sym('str', 'T'), lambda: arr('a'), 1)):
+            try:
+                outs = _run_arith(model, g, acts, opaque, op, mkl, mkr)
+            except Unmodelled as e:
+                res.ob('R6', f.name, {'op': op, 'case': label}, True, 'undecided: %s' % e)
+                continue
+            precise = [o for o in outs if not o.imprecise]
+            if len(precise) < len(outs) and all(o.kind == 'return' and isinstance(o.value, ListV) and not o.value.has_splice()
+                                                and len(o.value.items) == 2 for o in precise):
+                # nothing refuted by the traces that were followed exactly; the others are not decided
+                res.ob('R6', f.name, {'op': op, 'case': label}, True, 'undecided: %s' % [o.imprecise for o in outs if o.imprecise][0])
+                continue
+            outs = precise
+            shaped = all(o.kind == 'return' and isinstance(o.value, ListV) and not o.value.has_splice() and len(o.value.items) == 2 for o in outs)
+            as_int = [o for o in outs if _note_true(o, 'int(T:str) parses')]
+            want = [(on, 'a0', 'int(T:str)'), (on, 'a1', 'int(T:str)')] if pos == 2 else [(on, 'int(T:str)', 'a0'), (on, 'int(T:str)', 'a1')]
+
+            def swap3(x):
+                return [(i[0], i[2], i[1]) if isinstance(i, tuple) and len(i) == 3 else i for i in x]
+            numeric = bool(as_int) and all(o.kind == 'return' and (names(o.value) == want or (op in ('+', '*') and names(o.value) == swap3(want)))
+                                          for o in as_int)
+            ok = shaped and numeric
+            res.ob('R6', f.name, {'op': op, 'case': label}, ok, H.describe(outs)[:2])
+            if not ok:
+                res.violation('R6', 'arith:arrays:%s' % label.replace(' ', '-'), where,
+                              '%s with %s must broadcast the text over the array and convert it like any text operand (for text spelling an '
+                              'integer: %s); got %s' % (label, op, want, '; '.join(H.describe(outs)[:3])), case={'op': op, 'case': label}, func=f.name)
         outs = _run_arith(model, g, acts, opaque, op, lambda: arr('a', 2), lambda: arr('b', 3))
         ok = all(o.kind == 'return' and isinstance(o.value, Err) and o.value.name == E['#VALUE!'] for o in outs)
         res.ob('R6', f.name, {'op': op, 'case': 'length mismatch'}, ok, H.describe(outs))
